@@ -112,14 +112,14 @@ Section SimStep2.
 
   Lemma i_43_44_sim opc ip0 ip a b : Sim a b -> sres_sim (i_43_44 P opc ip0 ip a) (i_43_44 P opc ip0 ip b).
   Proof. sim_start. unfold i_43_44. sim_auto. Qed.
-  Lemma i_46_sim opc ip0 ip a b : Sim a b -> sres_sim (i_46 opc ip0 ip a) (i_46 opc ip0 ip b).
+  Lemma i_46_sim opc ip0 ip a b : Sim a b -> sres_sim (i_46 P opc ip0 ip a) (i_46 P opc ip0 ip b).
   Proof.
-    intros HS. unfold i_46.
-    assert (E : scount b = scount a).
-    { destruct HS as (hw & kb & -> & Hag & _). unfold scount. cbn [st_stack set_stack]. apply (agree_count Hag). }
-    rewrite E. destruct (scount a =? 0); [cbn [sres_sim]; auto|].
-    pose proof (close_upvalues_from_sim (scount a - 1) HS) as H.
-    destruct (close_upvalues_from (scount a - 1) a), (close_upvalues_from (scount a - 1) b);
+    intros HS. unfold i_46. destruct (op_u32 P ip) as [idx|]; [|cbn [sres_sim]; auto].
+    assert (E : top_offset b = top_offset a).
+    { destruct HS as (hw & kb & -> & _). reflexivity. }
+    rewrite E. destruct (top_offset a) as [off|]; [|cbn [sres_sim]; auto].
+    pose proof (close_upvalues_from_sim (off + N.to_nat idx) HS) as H.
+    destruct (close_upvalues_from (off + N.to_nat idx) a), (close_upvalues_from (off + N.to_nat idx) b);
       cbn [closeres_sim sres_sim] in *; try contradiction; intuition.
   Qed.
   Lemma i_45_sim opc ip0 ip a b : Sim a b -> sres_sim (i_45 P opc ip0 ip a) (i_45 P opc ip0 ip b).
